@@ -336,3 +336,114 @@ impl Module {
         self.structs[sid].fields.iter().find(|(n, _)| n == f).map(|(_, t)| t)
     }
 }
+
+// ---------------------------------------------------------------------------------------------
+// Traversal helpers
+// ---------------------------------------------------------------------------------------------
+
+pub fn visit_fact(f: &FactLit, v: &mut dyn FnMut(&Expr)) {
+    for (_, e) in f.keys.iter().chain(f.vals.iter().flatten()) {
+        if let Some(e) = e {
+            visit_expr(e, v);
+        }
+    }
+}
+
+pub fn visit_expr(e: &Expr, v: &mut dyn FnMut(&Expr)) {
+    v(e);
+    match e {
+        Expr::Lit(_) | Expr::Var(_) | Expr::Todo | Expr::Raw(_) => {}
+        Expr::Some(x) | Expr::Ok(x) | Expr::Err(x) | Expr::Not(x) | Expr::Return(x) | Expr::Probe(_, x) => visit_expr(x, v),
+        Expr::Dot(x, _) | Expr::Substruct(x, _) | Expr::Cast(x, _) | Expr::Is(x, _) => visit_expr(x, v),
+        Expr::StructLit(_, fs, _) => fs.iter().for_each(|(_, x)| visit_expr(x, v)),
+        Expr::And(a, b) | Expr::Or(a, b) | Expr::Cmp(_, a, b) | Expr::Coalesce(a, b) | Expr::Arith(_, a, b) => {
+            visit_expr(a, v);
+            visit_expr(b, v);
+        }
+        Expr::If(c, t, f) => {
+            visit_expr(c, v);
+            visit_stmts(&t.0, v);
+            visit_expr(&t.1, v);
+            visit_stmts(&f.0, v);
+            visit_expr(&f.1, v);
+        }
+        Expr::Block(b) => {
+            visit_stmts(&b.0, v);
+            visit_expr(&b.1, v);
+        }
+        Expr::Match(s, arms) => {
+            visit_expr(s, v);
+            arms.iter().for_each(|(_, x)| visit_expr(x, v));
+        }
+        Expr::Call(_, a) | Expr::Recall(_, a) => a.iter().for_each(|x| visit_expr(x, v)),
+        Expr::Query(f) | Expr::Exists(f) | Expr::Count(_, _, f) => visit_fact(f, v),
+    }
+}
+
+pub fn visit_stmts(ss: &[Stmt], v: &mut dyn FnMut(&Expr)) {
+    for s in ss {
+        match s {
+            Stmt::Let(_, e) | Stmt::DebugAssert(e) | Stmt::Return(e) | Stmt::Emit(e) | Stmt::Publish(e) => visit_expr(e, v),
+            Stmt::Check(a, b) => {
+                visit_expr(a, v);
+                visit_expr(b, v);
+            }
+            Stmt::If(brs, fb) => {
+                for (c, b) in brs {
+                    visit_expr(c, v);
+                    visit_stmts(b, v);
+                }
+                if let Some(b) = fb {
+                    visit_stmts(b, v);
+                }
+            }
+            Stmt::Match(e, arms) => {
+                visit_expr(e, v);
+                arms.iter().for_each(|(_, b)| visit_stmts(b, v));
+            }
+            Stmt::Finish(b) => visit_stmts(b, v),
+            Stmt::Create(f) | Stmt::Delete(f) => visit_fact(f, v),
+            Stmt::Update(f, to) => {
+                visit_fact(f, v);
+                to.iter().for_each(|(_, e)| visit_expr(e, v));
+            }
+            Stmt::FinishCall(_, a) | Stmt::Recall(_, a) | Stmt::ActionCall(_, a) => a.iter().for_each(|x| visit_expr(x, v)),
+            Stmt::Map(f, _, b) => {
+                visit_fact(f, v);
+                visit_stmts(b, v);
+            }
+            Stmt::Raw(_) => {}
+        }
+    }
+}
+
+impl Module {
+    /// All statement lists of the module.
+    pub fn bodies(&self) -> Vec<&[Stmt]> {
+        let mut out: Vec<&[Stmt]> = vec![];
+        out.extend(self.funcs.iter().map(|f| f.body.as_slice()));
+        out.extend(self.finish_funcs.iter().map(|f| f.body.as_slice()));
+        for c in &self.commands {
+            out.push(&c.policy);
+            out.extend(c.recalls.iter().map(|r| r.body.as_slice()));
+        }
+        out.extend(self.actions.iter().map(|a| a.body.as_slice()));
+        out
+    }
+
+    /// Input class of a confirmed defect: `e substruct S` where `S` has no fields is compiled
+    /// without the MStructGet/MStructSet pair, leaving the source struct on the stack.
+    pub fn uses_substruct_to_empty(&self) -> bool {
+        let mut hit = false;
+        for b in self.bodies() {
+            visit_stmts(b, &mut |e| {
+                if let Expr::Substruct(_, s) = e
+                    && self.structs[*s].fields.is_empty()
+                {
+                    hit = true;
+                }
+            });
+        }
+        hit
+    }
+}
